@@ -46,6 +46,10 @@ def with_switches(o, sw):
 
     if sw["cache"].startswith("opt:"):
         lab.setdefault("CACHE", {})[sw["cache"].split(":")[1]] = val("cache")
+        if sw.get("legacy_conflict") and sw["cache"] == "opt:DISABLED":
+            # both spellings, in conflict: DISABLE (the older one, e.g. from a base configuration layer) is only the DEFAULT of
+            # DISABLED, so an explicit DISABLED decides
+            lab["CACHE"]["DISABLE"] = not spell.get("cache", [True, False])[0]
     if sw["effects"] == "opt":
         lab.setdefault("EFFECTS", {})["DISABLED"] = val("effects")
     if sw["logging"] == "opt":
@@ -160,6 +164,8 @@ class C16(HistoryProperty):
                         "nest": rng.random() < 0.5, "toggle_ds": rng.choice(names)}
             if rng.random() < 0.3:
                 op["sw"]["twice"] = rng.choice([True, "both"])
+            if rng.random() < 0.2:
+                op["sw"]["legacy_conflict"] = True
             if rng.random() < 0.3:
                 op["sw"]["spell"] = {w: [rng.random() < 0.6, rng.random() < 0.6] for w in ("cache", "effects", "logging") if rng.random() < 0.6}
         # the caller keeps ONE options dictionary and edits it in place between evaluations (in a third of the histories)
